@@ -65,7 +65,15 @@ func (t ty) lean() string {
 // ---------------------------------------------------------------- configuration (hand-written expectations)
 
 // whole functions, in dependency order
-var wholeFuncs = []string{"isSignedSumOverflow", "isUnsignedOverflow", "saturateValue", "signExtend", "isPowerOfTwo"}
+var wholeFuncs = []string{"isSignedSumOverflow", "isUnsignedOverflow", "saturateValue", "signExtend", "isPowerOfTwo", "redisDict.hashToIndex"}
+
+// externals: a call of one of these functions (a table look-up the subset cannot express) becomes an extra
+// parameter of the translated function; what it is assumed to return is stated in the theorem about the function
+// (bitPosition(2^k) = k)
+var externals = map[string]struct {
+	param string
+	t     string
+}{"bitPosition": {"bitPos", "int"}}
 
 type guardSpec struct {
 	fn, recv string // function (method) name
@@ -117,6 +125,7 @@ var guards = []guardSpec{
 // ---------------------------------------------------------------- translation
 
 type env struct {
+	usedExt map[string]bool   // externals called
 	alias   map[string]string // selector expressions read as free variables
 	tuple   string            // what a field method "returns": the tuple of its fields
 	recv    string            // receiver name of a field method ("" otherwise): recv.f reads and writes the field f
@@ -274,7 +283,18 @@ func (ev *env) expr(e ast.Expr, want ty) (string, ty) {
 				return fmt.Sprintf("(%s.setWidth %d)", s, t.width), t
 			}
 		}
+		if sel, ok := x.Fun.(*ast.SelectorExpr); ok {
+			if pkg, ok := sel.X.(*ast.Ident); ok && pkg.Name == "bits" && sel.Sel.Name == "Reverse32" && len(x.Args) == 1 {
+				a, t := ev.expr(x.Args[0], types["uint32"])
+				a = ev.resolve(a, t, types["uint32"], x.Pos())
+				return "(BitVec.reverse " + a + ")", types["uint32"]
+			}
+		}
 		if id, ok := x.Fun.(*ast.Ident); ok {
+			if ext, isExt := externals[id.Name]; isExt {
+				ev.usedExt[id.Name] = true
+				return ln(ext.param), types[ext.t]
+			}
 			sg, ok := ev.funcs[id.Name]
 			if !ok {
 				fail(x.Pos(), fset, "call of %s, which is not translated", id.Name)
@@ -623,7 +643,10 @@ func translateFunc(fd *ast.FuncDecl, funcs map[string]*sig) (out string, sg *sig
 	if !ok || !ok2 || len(rt) != 1 {
 		return "", nil, fmt.Errorf("%s: signature outside the subset", fd.Name.Name)
 	}
-	ev := &env{vars: map[string]ty{}, funcs: funcs, result: rt[0], resName: rn[0]}
+	ev := &env{vars: map[string]ty{}, funcs: funcs, result: rt[0], resName: rn[0], usedExt: map[string]bool{}}
+	for _, ext := range externals {
+		ev.vars[ext.param] = types[ext.t]
+	}
 	var params []string
 	for i, n := range pn {
 		ev.vars[n] = pt[i]
@@ -639,6 +662,16 @@ func translateFunc(fd *ast.FuncDecl, funcs map[string]*sig) (out string, sg *sig
 		body = fmt.Sprintf("let %s : %s := %s\n  ", ln(ev.resName), rt[0].lean(), z)
 	}
 	body += ev.block(fd.Body.List, 1)
+	var extNames []string
+	for name := range ev.usedExt {
+		extNames = append(extNames, name)
+	}
+	sort.Strings(extNames)
+	for _, name := range extNames {
+		ext := externals[name]
+		params = append(params, fmt.Sprintf("(%s : %s)", ln(ext.param), types[ext.t].lean()))
+		pt = append(pt, types[ext.t])
+	}
 	pos := fset.Position(fd.Pos())
 	out = fmt.Sprintf("/-- `%s` (%s) -/\ndef %s %s : %s :=\n  %s\n", fd.Name.Name, filepath.Base(pos.Filename),
 		fd.Name.Name, strings.Join(params, " "), rt[0].lean(), body)
@@ -658,7 +691,7 @@ func translateFieldMethod(fd *ast.FuncDecl, m fieldMethodSpec, funcs map[string]
 	if fd.Recv == nil || len(fd.Recv.List) != 1 || len(fd.Recv.List[0].Names) != 1 || (fd.Type.Params != nil && len(fd.Type.Params.List) > 0) || fd.Type.Results != nil {
 		return "", fmt.Errorf("%s.%s: not a parameterless method without results", m.recv, m.fn)
 	}
-	ev := &env{vars: map[string]ty{}, funcs: funcs, recv: fd.Recv.List[0].Names[0].Name}
+	ev := &env{vars: map[string]ty{}, funcs: funcs, recv: fd.Recv.List[0].Names[0].Name, usedExt: map[string]bool{}}
 	var params, rts []string
 	for i, f := range m.fields {
 		ev.vars[f] = types[m.fieldTypes[i]]
@@ -780,7 +813,7 @@ func translateRegion(fd *ast.FuncDecl, r regionSpec, funcs map[string]*sig) (out
 	if len(stmts) == 0 {
 		return "", fmt.Errorf("%s: the region (%s%s) was not found", r.fn, r.lenVar, r.from)
 	}
-	ev := &env{vars: map[string]ty{}, funcs: funcs, alias: r.alias}
+	ev := &env{vars: map[string]ty{}, funcs: funcs, alias: r.alias, usedExt: map[string]bool{}}
 	var params, rts []string
 	for i, v := range r.vars {
 		ev.vars[v] = types[r.varTypes[i]]
@@ -870,7 +903,7 @@ func translateGuard(fd *ast.FuncDecl, g guardSpec, funcs map[string]*sig) (out s
 	if guard == nil || n != 1 {
 		return "", fmt.Errorf("%s: expected exactly one `if` guarding %s, found %d", g.fn, g.constant, n)
 	}
-	ev := &env{vars: map[string]ty{}, funcs: funcs, result: types["bool"]}
+	ev := &env{vars: map[string]ty{}, funcs: funcs, result: types["bool"], usedExt: map[string]bool{}}
 	var params []string
 	for i, v := range g.vars {
 		ev.vars[v] = types[g.varTypes[i]]
@@ -986,9 +1019,13 @@ func main() {
 			errs = append(errs, err.Error())
 			continue
 		}
-		funcs[n] = sg
+		short := n
+		if i := strings.Index(n, "."); i >= 0 {
+			short = n[i+1:]
+		}
+		funcs[short] = sg
 		sb.WriteString(out + "\n")
-		names = append(names, n)
+		names = append(names, short)
 	}
 	for _, m := range fieldMethods {
 		fd, ok := decls[m.recv+"."+m.fn]
